@@ -8,6 +8,7 @@ import (
 	plush "github.com/gobuffalo/plush/v5"
 	"github.com/gobuffalo/plush/v5/parser"
 
+	"verifharness/ent"
 	"verifharness/vrt"
 )
 
@@ -114,29 +115,6 @@ func Int64Ops() {
 	vrt.Cover("done")
 }
 
-func htmlEsc(s string) string {
-	out := ""
-	for i := 0; i < len(s); i++ {
-		switch s[i] {
-		case '<':
-			out += "&lt;"
-		case '>':
-			out += "&gt;"
-		case '&':
-			out += "&amp;"
-		case '\'':
-			out += "&#39;"
-		case '"':
-			out += "&#34;"
-		case 0:
-			out += "�"
-		default:
-			out += s[i : i+1]
-		}
-	}
-	return out
-}
-
 func StringOps() {
 	max := 1 + vrt.Tier()
 	a := vrt.Bytes(vrt.IntRange(0, max))
@@ -147,43 +125,46 @@ func StringOps() {
 	ctx.Set("a", a)
 	ctx.Set("b", b)
 	got, err := render("a "+op+" b", ctx)
-	var want string
-	ok := true
-	switch op {
-	case "+":
-		want = htmlEsc(a + b)
-	case "<":
-		want = b2s(a < b)
-	case "<=":
-		want = b2s(a <= b)
-	case ">":
-		want = b2s(a > b)
-	case ">=":
-		want = b2s(a >= b)
-	case "==":
-		want = b2s(a == b)
-	case "!=":
-		want = b2s(a != b)
-	case "&&":
-		want = "false"
-		if a != "" {
-			if b != "" {
-				want = "true"
+	compute := func() (want string, ok bool) {
+		ok = true
+		switch op {
+		case "+":
+			want = ent.Esc(a + b)
+		case "<":
+			want = b2s(a < b)
+		case "<=":
+			want = b2s(a <= b)
+		case ">":
+			want = b2s(a > b)
+		case ">=":
+			want = b2s(a >= b)
+		case "==":
+			want = b2s(a == b)
+		case "!=":
+			want = b2s(a != b)
+		case "&&":
+			want = "false"
+			if a != "" {
+				if b != "" {
+					want = "true"
+				}
 			}
-		}
-	case "||":
-		want = "true"
-		if a == "" {
-			if b == "" {
-				want = "false"
+		case "||":
+			want = "true"
+			if a == "" {
+				if b == "" {
+					want = "false"
+				}
 			}
+		default:
+			ok = false
 		}
-	default:
-		ok = false
+		return
 	}
+	_, ok := compute()
 	if ok {
 		vrt.Assert(err == nil, "string operator: defined operation renders")
-		vrt.Assert(got == want, "string operator: value equals the documented meaning")
+		vrt.Assert(ent.Same(got, func() string { w, _ := compute(); return w }), "string operator: value equals the documented meaning")
 	} else {
 		vrt.Assert(err != nil, "string operator: arithmetic on strings is an error")
 	}
@@ -193,15 +174,15 @@ func StringOps() {
 		ctx.Set("n", n)
 		got, err = render("a + n", ctx)
 		vrt.Assert(err == nil, "string + int renders")
-		vrt.Assert(got == htmlEsc(a)+strconv.Itoa(n), "string + int concatenates the printed form")
+		vrt.Assert(ent.Same(got, func() string { return ent.Esc(a) + strconv.Itoa(n) }), "string + int concatenates the printed form")
 		t := vrt.Bool()
 		ctx.Set("t", t)
 		got, err = render("a + t", ctx)
 		vrt.Assert(err == nil, "string + bool renders")
-		vrt.Assert(got == htmlEsc(a)+b2s(t), "string + bool concatenates the printed form")
+		vrt.Assert(ent.Same(got, func() string { return ent.Esc(a) + b2s(t) }), "string + bool concatenates the printed form")
 		got, err = render("a + 1.5", ctx)
 		vrt.Assert(err == nil, "string + float renders")
-		vrt.Assert(got == htmlEsc(a)+"1.5", "string + float concatenates the printed form")
+		vrt.Assert(ent.Same(got, func() string { return ent.Esc(a) + "1.5" }), "string + float concatenates the printed form")
 	}
 	vrt.Cover("done")
 }
@@ -285,7 +266,7 @@ func FloatOps() {
 	}
 	if ok {
 		vrt.Assert(err == nil, "float operator renders")
-		vrt.Assert(got == htmlEsc(want), "float operator: value equals the documented meaning")
+		vrt.Assert(ent.Same(got, func() string { return ent.Esc(want) }), "float operator: value equals the documented meaning")
 	} else {
 		vrt.Assert(err != nil, "float division by zero is an error")
 	}
@@ -573,33 +554,38 @@ func StringChains() {
 	ctx.Set("n", n)
 	ctx.Set("m", m)
 	ctx.Set("t", t)
-	e := htmlEsc(s)
-	var expr, want string
-	switch vrt.Choice(10) {
-	case 0:
-		expr, want = "s + n + m", e+strconv.Itoa(n)+strconv.Itoa(m)
-	case 1:
-		expr, want = "\"\" + n + m", strconv.Itoa(n)+strconv.Itoa(m)
-	case 2:
-		expr, want = "s + t + n", e+b2s(t)+strconv.Itoa(n)
-	case 3:
-		expr, want = "\"\" + 1.5 + 1.5", "1.51.5"
-	case 4:
-		expr, want = "\"\" + 7 == \"7\"", "true"
-	case 5:
-		expr, want = "s + n == s + n", "true"
-	case 6: // a non-empty string is truthy: "false" is a non-empty string
-		expr, want = "\"\" + false || false", "true"
-	case 7:
-		expr, want = "!(\"\" + false)", "false"
-	case 8:
-		expr, want = "s + (n + m)", e+strconv.Itoa(n+m)
-	default:
-		expr, want = "s + s + n", e+e+strconv.Itoa(n)
+	var expr string
+	k := vrt.Choice(10)
+	compute := func() (want string) {
+		e := ent.Esc(s)
+		switch k {
+		case 0:
+			expr, want = "s + n + m", e+strconv.Itoa(n)+strconv.Itoa(m)
+		case 1:
+			expr, want = "\"\" + n + m", strconv.Itoa(n)+strconv.Itoa(m)
+		case 2:
+			expr, want = "s + t + n", e+b2s(t)+strconv.Itoa(n)
+		case 3:
+			expr, want = "\"\" + 1.5 + 1.5", "1.51.5"
+		case 4:
+			expr, want = "\"\" + 7 == \"7\"", "true"
+		case 5:
+			expr, want = "s + n == s + n", "true"
+		case 6: // a non-empty string is truthy: "false" is a non-empty string
+			expr, want = "\"\" + false || false", "true"
+		case 7:
+			expr, want = "!(\"\" + false)", "false"
+		case 8:
+			expr, want = "s + (n + m)", e+strconv.Itoa(n+m)
+		default:
+			expr, want = "s + s + n", e+e+strconv.Itoa(n)
+		}
+		return
 	}
+	compute()
 	got, err := render(expr, ctx)
 	vrt.Assert(err == nil, "a chain starting with a string renders: "+expr)
-	vrt.Assert(got == want, "string + x concatenates the printed form of x, left-associatively: "+expr)
+	vrt.Assert(ent.Same(got, compute), "string + x concatenates the printed form of x, left-associatively: "+expr)
 	vrt.Cover("done")
 }
 
@@ -620,7 +606,7 @@ func StringPlusNumber() {
 	vrt.Assert(err == nil, "a number prints")
 	got, err := render("a + x", ctx)
 	vrt.Assert(err == nil, "string + number renders")
-	vrt.Assert(got == htmlEsc(a)+printed, "string + x concatenates the printed form of x")
+	vrt.Assert(ent.Same(got, func() string { return ent.Esc(a) + printed }), "string + x concatenates the printed form of x")
 	// and comparisons of a string with that printed form are those of the strings
 	ctx.Set("p", printed)
 	got, err = render("(\"\" + x) == p", ctx)
